@@ -53,8 +53,11 @@ def corruptions(trace):
             yield mk(["out", "fields"], f2, "serialize.extra-field")
             yield mk(["out", "raw"], out["raw"] + "ff", "serialize.non-ascii")
         if op == "restore" and out.get("t") == "inst":
-            yield mk(["out", "outbound"], flip(out["outbound"]), "restore.outbound")
+            if "outbound" in out:
+                yield mk(["out", "outbound"], flip(out["outbound"]), "restore.outbound")
             yield mk(["out"], {"t": "err", "v": "WrongGroupError"}, "restore.inst->err")
+        if op == "peek" and out.get("t") == "val":
+            yield mk(["out"], {"t": "val", "v": flip(out["v"])}, "peek.outbound")
         if op == "consts":
             for k in ev["vals"]:
                 v2 = dict(ev["vals"])
